@@ -30,6 +30,27 @@ CLAIMS = {
         ref="DESIGN.md 4.8", technique="Rocq proof over comparators regenerated from errors.py; differential + report search",
         note=NOTE + "Trusted: list.sort returns the stable sorted permutation on a strict weak order; json.dumps. The catalogue-text and "
              "position parts of the property are checked on real reports (search), not proved."),
+    "C09": dict(
+        text="Theorem for EVERY input string (unbounded, all code points, any Unicode \\w/\\d classes): each token of the lexer model "
+             "carries the (line, visual column) that the independent specification Spec/TruePos computes from the raw text for its "
+             "first raw character - through tabs, multi-line comments/strings, line splices inside or between tokens and "
+             "di/trigraphs; the bad-lexeme diagnostic sits at the true position; the tokenizer terminates.  Proof: a position "
+             "invariant preserved by pop (all escape/splice/tab branches) and by each of the ten sub-parsers.  The model is tied to "
+             "lexer.py by tables regenerated on every run, pinned regex parse trees, and a differential run (tokens, values, "
+             "positions, raw spans, diagnostics, final state) - exhaustive over reduced alphabets - plus the extracted predicate "
+             "applied to the implementation's own tokens.",
+        ref="DESIGN.md 4.9", technique="Rocq proof (invariant over the lexer model) + exhaustive differential lexing",
+        note=NOTE + "Modelled: lexer.py completely (hand-written Gallina, Model/Lexer.v + NumRe.v). Diagnostics emitted by the rule "
+             "engine copy token positions (Highlight.from_token) - not modelled here."),
+    "C10": dict(
+        text="Theorems for EVERY input string: the raw spans of tokens, skipped splices and bad-lexeme characters recorded by the lexer "
+             "model are consecutive, non-empty and cover the input exactly; every skipped span is one line splice; every character "
+             "that starts no token has its BAD_LEXEME diagnostic at its true position; the final state has consumed everything.  "
+             "The last clause of the property (each token's text is its raw span up to the documented normalisations, "
+             "Spec/Normalise.norm_ok) is evaluated on the model and on the implementation's tokens for every explored string "
+             "(exhaustive over reduced alphabets) but not proved: partial.",
+        ref="DESIGN.md 4.10", technique="Rocq proof (tiling/reporting) + exhaustive differential lexing + extracted text predicate",
+        note=NOTE + "Not proved: the token-text clause (tested). Modelled: lexer.py completely."),
 }
 
 NOT_YET = {}
